@@ -517,6 +517,84 @@ def emit_user(t, usr, outdir):
     return write_if_changed(os.path.join(outdir, 'Usr.lean'), '\n'.join(lines) + '\n')
 
 
+def site_layout(repo):
+    """`struct Quantity` of src/system.rs: attributes and fields; `#[inline(always)]` on the conversion kernel"""
+    site = 'layout'
+    toks = lex_site(read(repo, 'src/system.rs', site), site)
+    idx = None
+    for i in range(len(toks) - 2):
+        if toks[i] == ('id', 'struct') and toks[i + 1] == ('id', 'Quantity'):
+            idx = i
+            break
+    if idx is None:
+        raise SiteError(site, 'struct Quantity not found')
+    # attributes immediately preceding `pub struct` (doc comments are gone; cfg_attr(doc) ones are skipped)
+    attrs = []
+    j = idx - 1
+    if toks[j] == ('id', 'pub'):
+        j -= 1
+    while j > 0 and toks[j] == ('p', ']'):
+        depth = 0
+        k = j
+        while k >= 0:
+            if toks[k] == ('p', ']'): depth += 1
+            elif toks[k] == ('p', '['):
+                depth -= 1
+                if depth == 0:
+                    break
+            k -= 1
+        text = ''.join(t for _k, t in toks[k + 1:j])
+        if not text.startswith('cfg_attr') and not text.startswith('doc'):
+            attrs.append(text)
+        j = k - 2 if toks[k - 1] == ('p', '#') else k - 1
+    # fields
+    k = idx
+    while toks[k] != ('p', '{'):
+        k += 1
+    end = match_close(toks, k)
+    c = Cur(toks, site, k + 1, end)
+    fields = []
+    while not c.done():
+        c.skip_attrs()
+        c.accept('id', 'pub')
+        name = c.expect('id')
+        c.expect('p', ':')
+        ty = []
+        depth = 0
+        while not c.done():
+            kk, tt = c.peek()
+            if kk == 'p' and tt == ',' and depth == 0:
+                break
+            if kk == 'p' and tt == '<': depth += 1
+            if kk == 'p' and tt == '>': depth -= 1
+            ty.append(tt)
+            c.next()
+        c.accept('p', ',')
+        fields.append([name, ''.join(ty)])
+    # #[inline(always)] on the conversion kernel
+    inl = {}
+    for fn in ('from_base', 'to_base', 'change_base'):
+        for i in range(len(toks) - 1):
+            if toks[i] == ('id', 'fn') and toks[i + 1] == ('id', fn):
+                window = toks[max(0, i - 40):i]
+                inl[fn] = any(window[m:m + 4] == [('id', 'inline'), ('p', '('), ('id', 'always'), ('p', ')')] for m in range(len(window) - 3))
+                break
+        else:
+            raise SiteError(site, 'fn %s not found' % fn)
+    return dict(attrs=attrs, fields=fields, inline_always=inl)
+
+
+def emit_layout(layout, outdir):
+    lines = ['-- GENERATED by translate/translate.py from src/system.rs — do not edit', 'namespace Uom.Gen.Layout', '']
+    lines.append('def attrs : List String := [%s]' % ', '.join(json.dumps(a) for a in layout['attrs']))
+    lines.append('/-- (field name, type text, is the type a `PhantomData<…>`) -/')
+    lines.append('def fields : List (String × String × Bool) := [%s]' % ', '.join(
+        '(%s, %s, %s)' % (json.dumps(n), json.dumps(t), 'true' if re.search(r'(^|::)PhantomData<', t) else 'false') for n, t in layout['fields']))
+    lines.append('def inlineAlways : List (String × Bool) := [%s]' % ', '.join('(%s, %s)' % (json.dumps(k), 'true' if v else 'false') for k, v in layout['inline_always'].items()))
+    lines.append('end Uom.Gen.Layout')
+    return write_if_changed(os.path.join(outdir, 'Layout.lean'), '\n'.join(lines) + '\n')
+
+
 def translate(repo):
     prefixes, prefix_order = site_prefix(repo)
     system, si_toks = site_system(repo)
@@ -786,6 +864,13 @@ def main():
     changed = 0
     changed += emit_certs(t, os.path.join(verif, 'lean', 'Uom', 'Gen'), verif)
     changed += emit_label_checks(t, os.path.join(verif, 'lean', 'Uom', 'Gen'))
+    try:
+        layout = site_layout(repo)
+    except SiteError as ex:
+        print('translator-broken:%s %s' % (ex.site, ex.msg))
+        return 3
+    t['layout'] = layout
+    changed += emit_layout(layout, os.path.join(verif, 'lean', 'Uom', 'Gen'))
     try:
         usr = translate_user(os.path.join(verif, 'harness', 'src', 'bin', 'usr.rs'), t['prefixes'])
     except SiteError as ex:
